@@ -582,6 +582,24 @@ def rule_balance(ctx):
     return r
 
 
+def _unwrap_md(t):
+    """`(*ManuallyDrop::new(x)).ptr` -> `x.ptr`"""
+    t = strip(t)
+    if isinstance(t, tuple) and t[0] == "field":
+        base = strip(t[2])
+        while isinstance(base, tuple) and base[0] in ("deref", "ref", "load"):
+            base = strip(base[1])
+        if isinstance(base, tuple) and base[0] == "call" and (norm(base[1]).endswith("ManuallyDrop<T> as std::ops::Deref>::deref")
+                                                                  or norm(base[1]) == "std::ops::Deref::deref") and base[2]:
+            base = strip(base[2][0])
+            while isinstance(base, tuple) and base[0] in ("deref", "ref", "load"):
+                base = strip(base[1])
+        if isinstance(base, tuple) and base[0] == "call" and norm(base[1]) == "std::mem::ManuallyDrop::new" and base[2]:
+            base = strip(base[2][0])
+        return ("field", t[1], base)
+    return t
+
+
 def rule_primitives(ctx):
     r = RuleResult("OWN-PRIMITIVES", ["C01", "C03", "C08", "C09", "C10"],
                    "from_raw / into_raw move ownership without touching any count")
@@ -594,7 +612,8 @@ def rule_primitives(ctx):
                 continue
             r.paths += 1
             cnt = [e for e in p.events if e.kind == "call" and (e.target or "").startswith("utils::RcInner")]
-            forgets = [e for e in p.events if e.kind == "call" and e.ntarget == "std::mem::forget"]
+            # (`ManuallyDrop::new(self).ptr` gives the share up like `forget(self)`: the wrapper is never dropped)
+            forgets = [e for e in p.events if e.kind == "call" and e.ntarget in ("std::mem::forget", "std::mem::ManuallyDrop::new")]
             drops = [e for e in p.events if e.kind == "drop" and e.adt in OWNER_SIDE]
             if name.endswith("from_raw"):
                 # exactly the argument: the word carries the tag (and the epoch bits), which `pclass` would ignore
@@ -603,7 +622,7 @@ def rule_primitives(ctx):
                 what = "from_raw must build the owner from exactly its argument (pointer, tag and all) and nothing else"
             else:
                 ok = (not cnt and len(forgets) == 1 and not drops and strip(forgets[0].args[0]) == ("arg", 1, b.local_name(1))
-                      and strip(p.ret) == ("field", "ptr", ("arg", 1, b.local_name(1))))
+                      and _unwrap_md(p.ret) == ("field", "ptr", ("arg", 1, b.local_name(1))))
                 what = "into_raw must forget(self) exactly once, drop nothing and return exactly self.ptr (tag included)"
             r.instance("%s: %s" % (name, why), ok)
             if not ok:
@@ -709,7 +728,11 @@ def rule_provenance(ctx):
             src = None
             for e in p.events:
                 if e.kind == "call" and ((op == "swap" and e.ntarget == "atomic::Atomic::swap") or
-                                         (op == "take" and (e.ntarget or "").endswith("mem::take"))):
+                                         (op == "take" and ((e.ntarget or "").endswith("mem::take") or
+                                                            # `mem::replace(link, null)` leaves null like `mem::take(link)`
+                                                            ((e.ntarget or "").endswith("mem::replace") and len(e.args) > 1 and
+                                                             isinstance(strip(e.args[1]), tuple) and strip(e.args[1])[0] == "call" and
+                                                             norm(strip(e.args[1])[1]).endswith(("::null", "Default>::default")))))):
                     src = e
             ret = p.ret
             ok = src is not None and isinstance(ret, tuple) and ret[0] == "call" and norm(ret[1]).endswith("::from_raw") \
